@@ -1,5 +1,6 @@
 import LZ4V.Properties.C03E2E
 import LZ4V.Properties.C08Fun
+import LZ4V.Properties.C03Linked
 /-!
 # C03, both halves composed — what the compression model writes, the decompression model reads back, under every chunking
 
